@@ -14,7 +14,7 @@ def plugin_nontrivial(tok, res):
         w = res.partition(" | ")[2]
         if ",W:" in tok[1]:   # a heartbeat history (real time): at least one Ping refused and at least three waits
             return res.startswith("H=") and "no" in res.partition(" | ")[0] and tok[1].count(",W:") >= 3
-        return res.startswith("H=") and sum(1 for x in w.split(";") if x != "-") >= 3
+        return res.startswith("H=") and sum(1 for x in w.split(";") if x.replace("&", "").replace("-", "") != "") >= 3
     if tok[0] == "sess":      # a session that stopped at least two proxies with a CloseProxy plugin listening
         return res.startswith("L=ok") and res.count("CloseProxy:") >= 2 and res.count("ok:") >= 2
     if tok[0] != "call":
@@ -34,11 +34,16 @@ def plugin_class(res):
             return "Hbeat;dropped-in-wait=%d;pings-counted=%s;pings-refused=%s;alive-at-end=%s" % (
                 dropped, "y" if "ok+" in pings else "n", "y" if "no=" in pings else "n",
                 "y" if any(o in ("ok+", "no=") for o in outs[-4:]) else "n")
-        return "H;steps=%d+;consulted-steps=%d+;refused=%s;user/work-conn=%s;hung-up=%s;pings=%s" % (
-            len(outs) // 4 * 4, sum(1 for x in w.split(";") if x != "-") // 3 * 3,
-            "y" if any(o in ("no", "no=", "no+", "no/-", "ok/no") for o in outs) else "n",
-            "y" if any("/" in o for o in outs) else "n", "y" if "closed" in outs else "n",
-            "+".join(sorted(set(pings))) or "-")
+        par = [o.split("!")[0].split("&") for o in outs if "&" in o]      # J steps: occurrences in flight together
+        flat = [x for o in outs for x in o.split("!")[0].split("&")]
+        return "H;steps=%d+;consulted-steps=%d+;refused=%s;user/work-conn=%s;hung-up=%s;pings=%s;in-flight=%s" % (
+            len(outs) // 4 * 4, sum(1 for x in w.split(";") if x.replace("&", "").replace("-", "") != "") // 3 * 3,
+            "y" if any(o in ("no", "no=", "no+", "no/-", "ok/no") for o in flat) else "n",
+            "y" if any("/" in o for o in flat) else "n", "y" if "closed" in flat else "n",
+            "+".join(sorted(set(pings))) or "-",
+            # how many occurrences of one step really went through a chain, and whether their verdicts differed
+            "-" if not par else "%d%s" % (min(4, max(sum(1 for x in p if x not in ("-", "dead", "dup", "closed")) for p in par)),
+                                          "d" if any(len({x.split(":")[0] for x in p if x not in ("-", "dead", "dup", "closed")}) > 1 for p in par) else "s"))
     if res.startswith("L=") and ";S=" in res:
         r, _, w = res.partition(" | ")
         n = w.count("CloseProxy:")
@@ -80,12 +85,18 @@ PROP = {
             "Frp.C15.alive_after_check_is_recent", "Frp.C15.clocks_le_now",
             "Frp.C15.pingHoldsOn_sound", "Frp.C15.model_pingHoldsOn",
             "Frp.C15.expiryHoldsOn_sound", "Frp.C15.model_expiryHoldsOn", "Frp.C15.code_ping_store_gated",
+            "Frp.C15.stepReq_is_step", "Frp.C15.stepReq_events_gated", "Frp.C15.ping_acts_on_rewritten",
+            "Frp.C15.workconn_acts_on_rewritten", "Frp.C15.original_credentials_decide_nothing",
+            "Frp.C15.code_chain_then_verify",
+            "Frp.C15.flight_advance_cons", "Frp.C15.flight_runs_gated", "Frp.C15.pool_occurrence_independent",
+            "Frp.C15.concurrent_occurrences_gated", "Frp.C15.log_per_occurrence",
+            "Frp.C15.log_is_each_occurrences_chain", "Frp.C15.conn_visits_independent",
             "Frp.ListW.Interleave.perm", "Frp.ListW.Interleave.sublist", "Frp.ListW.Interleave.sequential",
             "Frp.C15.errMsg_ne_nil", "Frp.C15.empty_error_only_from_empty_reason",
             "Frp.C15.refusal_reported_witness", "Frp.C15.refusal_reported", "Frp.C15.refusal_reported_partial",
         ],
         "engines": [
-            {"name": "plugin", "quick_n": 14000, "thorough_n": 150000, "thorough_seeds": 6,
+            {"name": "plugin", "quick_n": 14000, "thorough_n": 150000, "thorough_seeds": 5,
              "nontrivial": plugin_nontrivial, "result_class": plugin_class},
         ],
         "rule": "plugin engine: generated chains of 0..8 registered plugins (stub Plugin implementations and real "
@@ -96,8 +107,14 @@ PROP = {
                 "for some proxy names only) and `hist` (a history on a real frps: several control connections, logins with an empty / "
                 "literal / earlier session's run id — live = re-login that replaces, closed before = stale —, behaviour flips of the "
                 "registered plugins between steps (accept, rewrite, partial rewrite, reject, content-dependent reject / failure, HTTP "
-                "error, reset, malformed), repeated NewProxy on new / used names, Ping (any privilege key, with and without the HeartBeats auth scope; "
-                "the result says whether the session's lastPing moved), user + work connections, connection closes) and, three per run, "
+                "error, reset, malformed, translators that turn a ticket into other credentials / names, substitutions), repeated NewProxy on new / used names, "
+                "Ping and work connections carrying any credentials (privilege key + timestamp: valid, tickets, junk) on servers with and without the "
+                "HeartBeats / NewWorkConns auth scopes (the result says whether the session's lastPing moved; whether a Ping counts / a work connection is "
+                "started must follow the credentials AS REWRITTEN by the chain), user + work connections, connection closes, and `J` steps: 2..4 occurrences IN FLIGHT "
+                "TOGETHER (user connections to one proxy from the same and from other source addresses 127.0.0.x, their work connections, Pings and NewProxys "
+                "of several sessions) while the plugin server holds every answer back until the script releases it, in any order, with changes of mind "
+                "between two releases (first let through slowly and the later ones refused, and the other way round); every request is attributed to its "
+                "occurrence by its own content (remote address incl. port, run id) and each occurrence is judged like a lone one) and, three per run, "
                 "heartbeat histories in real time (a frps with heartbeatTimeout 1 or 2 s, 2..4 sessions pinging in rounds every 0.3..0.5 s "
                 "while the Ping plugins change their mind — reject all / some keys, HTTP 500, reset, garbage, `{}`, for all / some keys, "
                 "maybe consent again —, sessions that fall silent or are closed; the history goes on until every session whose Pings are "
@@ -126,8 +143,20 @@ PROP = {
             "that `ctl.lastPing.Store` stands there in handlePing (after the `if err != nil {…return}`), that only NewControl writes it "
             "besides, and the heartbeat worker's condition and period are regenerated from server/control.go on every run "
             "(translate/gen_pluginsitefacts.go, `C15.code_ping_store_gated`); whether a Ping was counted is read through the existing "
-            "hook Service.VerifAuthSessions (LastPing before / after the Pong) and judged by `C15.pingHoldsOn`; VerifyPing's verdict "
-            "is taken over from the implementation",
+            "hook Service.VerifAuthSessions (LastPing before / after the Pong) and judged by `C15.pingHoldsOn`; VerifyLogin's verdict "
+            "is taken over from the implementation; VerifyPing's and VerifyNewWorkConn's are NOT: `PluginSite.stepReq` computes them from the "
+            "credentials of the content the chain returned (`Auth`: per scope the list of credentials the verifier accepts; the scenario names them, "
+            "computed by the harness with util.GetAuthKey; privilege key and timestamp travel as one string), and the statement order chain → "
+            "`x = &retContent.…` → `Verify…(x)` → refusal → effect in RegisterWorkConn / handlePing / handleConnection+RegisterControl is regenerated "
+            "from the source (`C15.code_chain_then_verify`)",
+            "occurrences in flight together (`J` steps): the scripted plugin server records a request when it arrives and answers it when the script "
+            "says so, with the behaviour of that moment; the model keeps per occurrence the plugins that answered it as they answered "
+            "(`PluginSite.Flight`; `C15.concurrent_occurrences_gated`, `C15.log_is_each_occurrences_chain`: under every schedule each occurrence "
+            "gets the manager loop's result on its own chain and content and appears in the request log with exactly its own calls); the first "
+            "request of an occurrence must carry the occurrence's own identity (remote address of that user connection, run id of that session), "
+            "later ones are attributed causally (they follow a release of that occurrence); a request that fits no occurrence, or an occurrence that "
+            "goes on without a request of its own, fails `C15.siteHoldsOn`; that every user connection has a goroutine of its own, that "
+            "handleUserTCPConnection itself calls the chain and that no gated chain is called from a function literal is regenerated from the source",
             "real time in the heartbeat histories: the model clock (1/10 s) advances only in W steps, which the harness keeps on an "
             "absolute schedule; a history whose steps overran it by more than 250 ms is void (`infra late`, counted as skipped); a "
             "session must be alive while (now - last counted heartbeat) + 0.5 s <= timeout, must be gone when it exceeds timeout + 1 s "
@@ -149,7 +178,7 @@ META = {
         "engine": "lean+harness(plugin)",
         "design_ref": "DESIGN.md §6 C15",
         "technique": "Lean 4 proofs by induction over the plugin chain for arbitrary handler functions; differential correspondence with the real plugin.Manager and httpPlugin",
-        "text": "Proof: for every list of registered plugins (any supported-op sets, any handler functions that may depend on the content they are handed), every operation and content, the modelled manager method consults exactly the plugins registered for that operation, in registration order, each on the left-to-right composition of the earlier modifications, up to and including the first one that errors / rejects / returns unusable content, nobody after it; it returns ok iff every one of them passed, and then the content is the composition; transport error, non-200, unreadable or unparsable body make Handle fail and hence the operation is refused; CloseProxy notifies every registered plugin with the original content even when earlier ones fail; at the session level every proxy stopped by CloseProxy or by session end is notified exactly once, and with the chain attached (one notification goroutine per stopped proxy, modelled as the code starts them): for every session history, every chain and all handler functions, every order in which the session end ranges over its proxies and every interleaving of the goroutines, the Handle(CloseProxy) calls received are a permutation of {stopped proxy} x {plugin registered for CloseProxy} (nothing lost behind a failing plugin or a failed notification, nothing twice) and each notification calls the chain in order; at the call sites, for every HISTORY (several sessions; logins with an empty, unknown, live (re-login / replacement) or ended run id; the same operation any number of times; a plugin manager that may be another one at every step, i.e. behaviours that flip between operations): every visit of a call site is a run of the chain of that moment, the server goes on (session stored / replaced, proxy registered, heartbeat counted + pong, work connection pooled, user connection served) only if every plugin then registered for the operation was consulted in order and passed, the server state changes only through such a visit, every Control the server holds was admitted by a consenting Login chain and carries the user as rewritten by it (which is what every later request of the session offers the plugins), every proxy runs under the name as rewritten by a consenting NewProxy chain; the heartbeat clock of a session (lastPing) moves only through a Ping of that session that VerifyPing and every plugin then registered for Ping let through (a rejected Ping, one whose plugin is unreachable / answers non-200 / garbage changes nothing at all), over any history in which no Ping passes the gate every clock stays where it was, and then the first run of the session's heartbeat worker later than last counted heartbeat + timeout ends the session (logical clock, ticks and worker runs interleaved arbitrarily); the position of the lastPing store in handlePing, its writers and the worker's condition are regenerated from the source on every run. Kernel-checked, axioms propext/Classical.choice/Quot.sound only. The hand-written model is tied to the code by replaying 14k (quick) generated operations per run (incl. ~550 one-proxy call-site scenarios, ~550 multi-proxy session scenarios and ~280 multi-session histories with re-logins and behaviour flips against a real frps, 3 of them real-time heartbeat histories with a 1-2 s timeout) on the real Manager (stubs + real httpPlugin over loopback HTTP) and on the model, with the Lean predicate evaluated on the implementation's own results.",
+        "text": "Proof: for every list of registered plugins (any supported-op sets, any handler functions that may depend on the content they are handed), every operation and content, the modelled manager method consults exactly the plugins registered for that operation, in registration order, each on the left-to-right composition of the earlier modifications, up to and including the first one that errors / rejects / returns unusable content, nobody after it; it returns ok iff every one of them passed, and then the content is the composition; transport error, non-200, unreadable or unparsable body make Handle fail and hence the operation is refused; CloseProxy notifies every registered plugin with the original content even when earlier ones fail; at the session level every proxy stopped by CloseProxy or by session end is notified exactly once, and with the chain attached (one notification goroutine per stopped proxy, modelled as the code starts them): for every session history, every chain and all handler functions, every order in which the session end ranges over its proxies and every interleaving of the goroutines, the Handle(CloseProxy) calls received are a permutation of {stopped proxy} x {plugin registered for CloseProxy} (nothing lost behind a failing plugin or a failed notification, nothing twice) and each notification calls the chain in order; at the call sites, for every HISTORY (several sessions; logins with an empty, unknown, live (re-login / replacement) or ended run id; the same operation any number of times; a plugin manager that may be another one at every step, i.e. behaviours that flip between operations): every visit of a call site is a run of the chain of that moment, the server goes on (session stored / replaced, proxy registered, heartbeat counted + pong, work connection pooled, user connection served) only if every plugin then registered for the operation was consulted in order and passed, the server state changes only through such a visit, every Control the server holds was admitted by a consenting Login chain and carries the user as rewritten by it (which is what every later request of the session offers the plugins), every proxy runs under the name as rewritten by a consenting NewProxy chain; where the server checks credentials after the chain (Ping with the HeartBeats scope, NewWorkConn with the NewWorkConns scope) the check reads the credentials of the content the chain RETURNED — a Ping counts / a work connection is handed to the session iff the chain consented and the verifier accepts the rewritten credentials, the original ones decide nothing, and the chain is consulted whatever they are worth (statement order of RegisterWorkConn / handlePing / the Login case + RegisterControl regenerated from the source); occurrences in flight at the same time (several user connections to one proxy, work connections, Pings, NewProxys, each goroutine stopped between two Handle calls, plugins answering in any order): under every schedule every occurrence returns what the manager loop returns on ITS chain and ITS content, and the plugins' request log restricted to an occurrence is exactly that occurrence's list (nothing shared, nothing inherited); the heartbeat clock of a session (lastPing) moves only through a Ping of that session that VerifyPing and every plugin then registered for Ping let through (a rejected Ping, one whose plugin is unreachable / answers non-200 / garbage changes nothing at all), over any history in which no Ping passes the gate every clock stays where it was, and then the first run of the session's heartbeat worker later than last counted heartbeat + timeout ends the session (logical clock, ticks and worker runs interleaved arbitrarily); the position of the lastPing store in handlePing, its writers and the worker's condition are regenerated from the source on every run. Kernel-checked, axioms propext/Classical.choice/Quot.sound only. The hand-written model is tied to the code by replaying 14k (quick) generated operations per run (incl. ~550 one-proxy call-site scenarios, ~550 multi-proxy session scenarios and ~300 multi-session histories with re-logins, behaviour flips, credential-rewriting plugins under the HeartBeats / NewWorkConns auth scopes and ~200 steps with 2-4 occurrences in flight together while the plugin server holds its answers, against a real frps, 3 of them real-time heartbeat histories with a 1-2 s timeout) on the real Manager (stubs + real httpPlugin over loopback HTTP) and on the model, with the Lean predicate evaluated on the implementation's own results.",
         "known_finding": "C15-empty-reject-reason: reject with reject_reason \"\" is refused server-side but reported to the peer as success (LoginResp/NewProxyResp/Pong/StartWorkConn.Error empty). Minimal repair: in util.GenerateResponseErrorString fall back to the summary when err.Error() is empty (or give Manager a default reject reason).",
         "note": "Trusted: Lean kernel; the hand-written model of manager.go/http.go; the harness generators and its scripted HTTP server. Observations kept faithful in the model: a 200 reply without `unchange` (e.g. `{}` or `null`) is accepted and replaces the content by the zero value; `\"content\": null` with unchange=false panics in the manager's type assertion (the goroutine is not recovered at the call sites); handleUserTCPConnection discards the content returned by NewUserConn; NewUserConn is only hooked for listener-based proxies (tcp, stcp, https, tcpmux), not for http / udp.",
     }
